@@ -88,6 +88,7 @@ package controller
 //@   safety C09
 //@   requires ctrlInv(f)
 //@   atcall[rescaled] ensureNoThirdPartyIsMessingWithUs: minPwm <= target && target <= maxPwm && maxPwm == fans.fanMax(f.fan) && minPwm == floorOf(f)
+//@   atcall[C05.current C04] Cycle: f.lastSetPwm != nil ==> current == *f.lastSetPwm
 //@   atcall[C04.formula C07] ensureNoThirdPartyIsMessingWithUs: target == rescaleOf(control_loop.clampInt(lastCycleOut, 0, 255), minPwm, maxPwm)
 //@   ensures[C04.request C07] err == nil && f.minPwmOffset == old(f.minPwmOffset) ==> target == rescaleOf(control_loop.clampInt(lastCycleOut, 0, 255), old(floorOf(f)), old(fans.fanMax(f.fan)))
 //@   ensures[C01.range C02 C05 C10 C03 C09 C04] err == nil ==> old(fans.fanMin(f.fan)) <= target && target <= old(fans.fanMax(f.fan))
